@@ -21,7 +21,7 @@ def golden_ops(disk):
     import random
     rng = random.Random(18)
     keys = gen.c02_keys(disk)
-    vals = [v for v in gen.c01_values(rng, 16, disk) if not (isinstance(v, str) and any(0xD800 <= ord(c) <= 0xDFFF for c in v))]
+    vals = [v for v in gen.c01_values(rng, 16, disk, bom=False) if not (isinstance(v, str) and any(0xD800 <= ord(c) <= 0xDFFF for c in v))]
     # NaN is left out: the pinned version stored it as NULL (defect D2), which is no format to preserve
     vals = [v for v in vals if not (isinstance(v, float) and v != v)]
     if disk == 'json':
